@@ -121,6 +121,7 @@ Proof.
   - apply N.eqb_neq in El. destruct t; try exact I.
     destruct Hd as [Hsq Hc]. destruct (d_cur d) as [| c cur] eqn:Ec.
     + destruct Hc as [[_ Hl] | [N _]]; [| congruence].
+      destruct (xlt x xq0); [exact I |].
       destruct (match d_freqs d with prev :: _ => xle (xmul (XQ (h_mult h)) x) prev | [] => false end); [exact I |].
       destruct (d_togo d - 1) eqn:Et; cbn [inv].
       * split; [exact Hh |]. split; [exact H0 |]. apply v2_complete_inv; cbn [d_mats d_freqs length]; [exact Hsq | lia].
